@@ -8,8 +8,14 @@
     during the call) and with a log of every in-place write the Go code
     performs (Extend, Extendm, the restore loop of FuncAction.Exec).
     [same a bs] says that the wrapped function handed back the very map it
-    was given (a native action may); [run] is ANY behaviour of actions and
-    guards - failing, rejecting, error with and without a partial result.
+    was given, [mutates a bs] that it wrote into that map in place and
+    changed it (a native action may do both); [run] is ANY behaviour of
+    actions and guards - failing, rejecting, error with and without a
+    partial result.  Nothing relates [run], [same] and [mutates], and
+    nothing is assumed of them: FuncAction.Exec hands the wrapped function a
+    shallow copy of the bindings, so what the function does to its argument
+    it does to that copy, and the in-place writes of the function itself
+    are part of the log.
 
     - [C06_tracked_*_is_the_model]: erasing the tags gives exactly [step] /
       [walk_stride], so these theorems are about the same function as
@@ -17,71 +23,149 @@
     - [C06_step_leaves_caller_intact] / [C06_walk_stride_leaves_caller_intact]:
       no logged write changes the contents of the caller's map, and every
       state of the returned stride (From, To - including error states) holds
-      a fresh map, never the caller's.
+      a fresh map, never the caller's;
+    - [C06_action_may_mutate_its_argument]: the same as one closed
+      statement over every [run], [same], [mutates], together with: an
+      in-place write of the wrapped function is in the log, against the
+      copy; [C06_exec_returns_a_fresh_map]: FuncAction.Exec returns a fresh
+      map whatever the tag of the map it was given;
+    - [C06_old_wiring_refuted]: with the wiring FuncAction.Exec had before
+      the repair (exe, err := a.F(ctx, bs, props) - the function works on
+      the very map Exec was given) a native action that deletes a binding
+      in place produces a write that changes the caller's map, for Exec
+      alone and for a whole step; the first half of
+      [C06_step_leaves_caller_intact] is false of that wiring.
     The messages, the specification and the control are only read by the
     model (they are never the target of a logged operation); deep snapshots
     and map-identity probes on the implementation cover them and test the
     tag assignment itself. *)
 From Sheens Require Import Model.Step Model.Own Spec.WalkSpec Proofs.OwnProofs.
 
+From Sheens Require Import Model.Action.
+
 Section C06.
 Variable action : Type.
 Variable run : action -> option bindings -> exec_raw.
 Variable same : action -> option bindings -> bool.
+Variable mutates : action -> option bindings -> bool.
 
 Theorem C06_tracked_step_is_the_model :
   forall s st pending,
-  erase_out (stepT action run same s st pending) =
+  erase_out (stepT action run same mutates s st pending) =
   plain_out (step action run s (erase_state st) pending).
-Proof. exact (stepT_erase action run same). Qed.
+Proof. exact (stepT_erase action run same mutates). Qed.
 
 Theorem C06_tracked_walk_stride_is_the_model :
   forall s st pendings,
-  erase_stride (fst (walk_strideT action run same s st pendings)) =
+  erase_stride (fst (walk_strideT action run same mutates s st pendings)) =
   fst (walk_stride action run s (erase_state st) pendings).
-Proof. exact (walk_strideT_erase action run same). Qed.
+Proof. exact (walk_strideT_erase action run same mutates). Qed.
 
-(** [c0]: the contents of the caller's map (key-sorted, as every bindings
-    map of the model); an action that hands back the map it was given has
-    not changed it - otherwise the action, not the engine, wrote to it *)
+(** [c0]: the contents of the caller's map *)
 Variable c0 : option bindings.
-Hypothesis c0_sorted : sorted_keys (copy_bs c0) = true.
-Hypothesis same_unchanged :
-  forall a bs, same a bs = true -> exists em, xr_exe (run a bs) = Some (bs, em).
 
 Theorem C06_step_leaves_caller_intact :
   forall s st pending,
   tinv c0 (ts_bs st) ->
-  let o := stepT action run same s st pending in
+  let o := stepT action run same mutates s st pending in
   log_ok (tso_log o) /\ (forall sd, tso_stride o = Some sd -> stride_fresh sd).
-Proof. exact (stepT_own action run same c0 c0_sorted same_unchanged). Qed.
+Proof. exact (stepT_own action run same mutates c0). Qed.
 
 Theorem C06_walk_stride_leaves_caller_intact :
   forall s st pendings,
   tinv c0 (ts_bs st) ->
-  log_ok (snd (walk_strideT action run same s st pendings)) /\
-  stride_fresh (fst (walk_strideT action run same s st pendings)).
-Proof. exact (walk_strideT_own action run same c0 c0_sorted same_unchanged). Qed.
+  log_ok (snd (walk_strideT action run same mutates s st pendings)) /\
+  stride_fresh (fst (walk_strideT action run same mutates s st pendings)).
+Proof. exact (walk_strideT_own action run same mutates c0). Qed.
+
+(** FuncAction.Exec alone, whatever the tag of the map it is given: every
+    write - the wrapped function's own included - leaves [Caller] maps as
+    they are, and the returned map is fresh *)
+Theorem C06_exec_returns_a_fresh_map :
+  forall a t,
+  let '((ot, _), _, l) := func_execT action run same mutates a t in
+  log_ok l /\ (forall t', ot = Some t' -> t_own t' = Fresh).
+Proof. exact (func_execT_fresh action run same mutates). Qed.
 End C06.
+
+(** the strengthened statement, closed: for EVERY behaviour of action and
+    guard functions - in particular ones that overwrite or delete bindings
+    in the map they are given, in place ([mutates]), and ones that hand that
+    very map back ([same]) - such a write is in the log, against Exec's copy,
+    and a step / a walk stride leave the caller's map as it is and return
+    fresh maps only *)
+Theorem C06_action_may_mutate_its_argument :
+  forall (action : Type) (run : action -> option bindings -> exec_raw)
+         (same mutates : action -> option bindings -> bool)
+         (c0 : option bindings) s st pendings,
+  tinv c0 (ts_bs st) ->
+  (forall a b, t_val (ts_bs st) = Some b -> mutates a (Some b) = true ->
+     In (Fresh, true) (snd (func_execT action run same mutates a (ts_bs st)))) /\
+  (let o := stepT action run same mutates s st (peek pendings) in
+   log_ok (tso_log o) /\ (forall sd, tso_stride o = Some sd -> stride_fresh sd)) /\
+  log_ok (snd (walk_strideT action run same mutates s st pendings)) /\
+  stride_fresh (fst (walk_strideT action run same mutates s st pendings)).
+Proof.
+  exact (fun action run same mutates c0 s st pendings Hinv =>
+           conj (fun a b => func_execT_logs_mutation action run same mutates a (ts_bs st) b)
+                (conj (stepT_own action run same mutates c0 s st (peek pendings) Hinv)
+                      (walk_strideT_own action run same mutates c0 s st pendings Hinv))).
+Qed.
+
+Theorem C06_old_wiring_refuted :
+  (exists (a : act) (t : tbs),
+     tinv (t_val t) t /\ t_own t = Caller /\
+     In (Caller, true) (snd (func_execT_old act run_act native_same native_mutates a t))) /\
+  (let st := mk_tstate "start" del_caller_map in
+   tinv (t_val del_caller_map) (ts_bs st) /\
+   In (Caller, true) (tso_log (stepT_old act run_act native_same native_mutates del_spec st None)) /\
+   ~ log_ok (tso_log (stepT_old act run_act native_same native_mutates del_spec st None))) /\
+  ~ (forall (action : Type) run same mutates (c0 : option bindings)
+            (s : spec action) (st : tstate) (pending : option json),
+       tinv c0 (ts_bs st) ->
+       log_ok (tso_log (stepT_old action run same mutates s st pending))).
+Proof. exact (conj old_wiring_refuted (conj old_wiring_step_refuted old_wiring_no_theorem)). Qed.
 
 Print Assumptions C06_tracked_step_is_the_model.
 Print Assumptions C06_tracked_walk_stride_is_the_model.
 Print Assumptions C06_step_leaves_caller_intact.
 Print Assumptions C06_walk_stride_leaves_caller_intact.
+Print Assumptions C06_exec_returns_a_fresh_map.
+Print Assumptions C06_action_may_mutate_its_argument.
+Print Assumptions C06_old_wiring_refuted.
 
-(** non-vacuity: a native action hands back the caller's own map, which
-    holds a permanent binding; the restore loop writes into it (one logged
-    write to a [Caller] map) without changing it, and the stride's states are
-    fresh; the action then follows no branch, so the error state is built -
-    from a copy *)
-From Sheens Require Import Model.Action.
+(** non-vacuity 1: a native action hands back the map it was given, which
+    holds a permanent binding; under the repaired wiring that map is Exec's
+    copy, so the restore loop writes into a [Fresh] map (without changing
+    it), and the stride's states are fresh; the action then follows no
+    branch, so the error state is built - from a copy *)
 Definition ex_spec : aspec :=
   mk_spec [("start", mk_node (Some (Native (mk_prog [] TRetBindings) false)) false None)] false "" true.
-Definition ex_same (a : act) (bs : option bindings) : bool :=
-  match a with Native p _ => match pg_ops p with [] => true | _ => false end | Js _ => false end.
 Example C06_nonvacuous :
   let st := mk_tstate "start" (mk_tbs Caller (Some [("cfg!", JNum 4)])) in
-  let o := stepT act run_act ex_same ex_spec st None in
-  tso_log o = [(Caller, false); (Fresh, true); (Fresh, true); (Fresh, true)] /\
+  let o := stepT act run_act native_same native_mutates ex_spec st None in
+  tso_log o = [(Fresh, false); (Fresh, true); (Fresh, true); (Fresh, true)] /\
   option_map (fun sd => option_map (fun s' => t_own (ts_bs s')) (tsd_to sd)) (tso_stride o) = Some (Some Fresh).
 Proof. vm_compute. auto. Qed.
+
+(** non-vacuity 2: a native action deletes the permanent binding "cfg!" and
+    the binding "x" IN PLACE and hands the map back.  Repaired wiring: the
+    deletion is a write that changes a [Fresh] map (Exec's copy), the restore
+    loop puts "cfg!" back into that copy (a second changing write to a
+    [Fresh] map), the caller's map is never written, the To state is the
+    error state on a fresh map.  Old wiring, same behaviour: both writes
+    change the [Caller] map. *)
+Definition ex_del_spec : aspec :=
+  mk_spec [("start", mk_node (Some (Native (mk_prog [ADel "cfg!"; ADel "x"] TRetBindings) false)) false None)]
+          false "" true.
+Example C06_nonvacuous_mutating_action :
+  let st := mk_tstate "start" (mk_tbs Caller (Some [("cfg!", JNum 4); ("x", JNum 4)])) in
+  let o := stepT act run_act native_same native_mutates ex_del_spec st None in
+  let o_old := stepT_old act run_act native_same native_mutates ex_del_spec st None in
+  tinv (Some [("cfg!", JNum 4); ("x", JNum 4)]) (ts_bs st) /\
+  tso_log o = [(Fresh, true); (Fresh, true); (Fresh, true); (Fresh, true); (Fresh, true)] /\
+  option_map (fun sd => option_map (fun s' => t_own (ts_bs s')) (tsd_to sd)) (tso_stride o) = Some (Some Fresh) /\
+  option_map (fun sd => t_own (ts_bs (tsd_from sd))) (tso_stride o) = Some Fresh /\
+  firstn 2 (tso_log o_old) = [(Caller, true); (Caller, true)] /\
+  erase_out o = erase_out o_old.
+Proof. vm_compute. repeat split; auto. Qed.
